@@ -5,7 +5,7 @@ class P(vlib.Prop):
     watch = ("pkg/apk/apk/version.go", "pkg/apk/apk/apkindex.go", "pkg/apk/apk/installed.go", "pkg/apk/apk/package.go", "pkg/apk/apk/index.go", "pkg/apk/apk/install.go",
              "pkg/apk/expandapk/*.go", "pkg/passwd/*.go", "pkg/build/sbom.go", "pkg/build/lock.go", "pkg/build/layers.go", "pkg/lock/lock.go",
              "pkg/build/types/*.go", "pkg/baseimg/*.go", "pkg/tarfs/fs.go", "pkg/apk/fs/rwosfs.go", "pkg/paths/paths.go", "pkg/apk/apk/util.go", "pkg/apk/apk/cache.go",
-             "pkg/apk/apk/resolveapk.go", "pkg/apk/apk/repository.go", "pkg/apk/auth/auth.go", "pkg/build/busybox.go", "internal/cli/lock.go", "internal/cli/publish.go")
+             "pkg/apk/apk/resolveapk.go", "pkg/apk/internal/tarfs/tarfs.go", "pkg/apk/apk/repository.go", "pkg/apk/auth/auth.go", "pkg/build/busybox.go", "internal/cli/lock.go", "internal/cli/publish.go")
     rule = ("four stages. readers: (a) Coq cases: hand-picked corners first (every fixed defect and finding replay: 'P\\n', one-byte lines, empty tar entry name, empty path, "
             "negative layer budget), then the four line-oriented readers on mutated well-formed documents (truncation, byte/bit edits, splices, line edits); the "
             "implementation's outcome class (returned / error / panic / timeout, under recover and a 3 s deadline) is compared with the model's class and judged by the validator. "
@@ -28,6 +28,7 @@ class P(vlib.Prop):
             "includes: ImageConfiguration.Load on real directory trees (working directory, include paths, relative includes, one file under different spellings, undecodable files), class and merged contents.packages "
             "compared with the model load_config (paths.ResolvePath + the kernel's path walk + the list of resolved paths being loaded, fix 43ae291) at fuel 40 and at the proved bound |files|+2: 65 of the 148 quick trees are cyclic and must be refused with an error; a load that does not come back (stack growth or 20 s) carries the tag of the repaired finding C15-F6, which stays armed. "
             "Both child probes of the repaired finding C15-F4 (a './' entry through sortTarHeaders and through the install path) must exit normally; the install decoder reader no longer leaves './' entries out. "
+            "Wave 3: archives whose members are hard / symbolic links (self-links, 2-/3-cycles, mixed cycles, chains of 63..130 hops, missing / directory / absolute / empty targets, repeated names) as control and as data section: sites kind tarfsOpen (ExpandApk, then the name opened through ControlFS / TarFS in a child process; class and the entry reached compared with tarfs_open_name), decoders family links/ through Split, ExpandApk + every member opened, ParsePackage, NewAPKFS, the install loop, InstallPackages on tarfs and memfs with read-back, under a 128 MiB stack limit. "
             "In-process stages give a call that misses its deadline a second, long wait before it counts as a hang (a machine shared with other checks). distinct = distinct case terms.")
     stages = (
         dict(name="readers", cmd="c15", args=lambda t, s: []),
@@ -46,7 +47,7 @@ class P(vlib.Prop):
         "RemoveLabel, parseAnnotations, parseAlpineVersion, fetchOffline, installBusyboxLinks are modelled and tied to the source by pinned site lists / guards / regex group counts / loop shape, but not run against the model (not importable or behind network)",
         "index / slice expressions and length guards of the transcribed functions are read from the source with local names erased and pinned by c15_sites_pinned: an edit that adds or changes one breaks the theorem",
     )
-    level_text = ("68 theorems, all closed. For ALL inputs the models, written with checked slicing / indexing, return a result or an error, never Panic and never out of fuel: the line-oriented readers "
+    level_text = ("71 theorems, all closed. For ALL inputs the models, written with checked slicing / indexing, return a result or an error, never Panic and never out of fuel: the line-oriented readers "
                   "(ParsePackageIndex, ParseInstalled + parseInstalledPerms, UserFile.Load, GroupFile.Load, readReleaseData), ParseVersion / ResolvePackageNameVersionPin (group counts of the source's "
                   "regexes), cachedPackage, checksumFromHeader (three copies), the '@tag url' splitter of GetRepositoryIndexes (with a UTF-8 aware model of strings.Fields whose 'no empty field' contract is "
                   "a lemma), unify's constraint splitter (IndexAny result in range), ExpandApk's section indices for EVERY number of gzip members (table read from the source's switch, plus the member loop: "
@@ -58,6 +59,7 @@ class P(vlib.Prop):
                   "(c15_consumes_sort_headers, c15_sort_headers_fix_terminates, conservative w.r.t. the former function); ImageConfiguration.Load on a file tree (paths.ResolvePath modelled: working directory first, then each "
                   "include path; relative includes; since fix 43ae291 the resolved paths being loaded are remembered) returns on EVERY tree within |files|+2 loads (c15_include_load_terminates_on_trees, c15_include_chain_fuel_bound), "
                   "answers every request that reaches a cycle of resolved paths with an error whatever the spellings (c15_include_cycle_is_error, five spelled trees) and changed nothing where the former loader returned. "
+                  "tarfs FS.open (members of an indexed control / data section opened by name) ends on EVERY archive index within maxHops+2 calls, both link kinds raising the hop counter (increments, limit and test read from the source: c15_tarfs_open_terminates, c15_tarfs_hops_pinned). "
                   "Hypothetical statements about the former shapes are kept and labelled so (c15_sort_headers_before_fix_hypothetical, c15_include_before_fix_*_hypothetical: the recursion that did not end, findings C15-F4 and C15-F6, both repaired). "
                   "Refuted, API-only shapes with no caller in apko: unify without architectures, groupByOriginAndSize with MinInt64, RepoAbbr on a URI without '/'.")
     level_note = ("partial: proof for the modelled readers only; gzip/tar/yaml/json/ini decoding inside Split, ExpandApk, IndexFromArchive, ParsePackage, lock.FromFile, the YAML loader and baseimg.New is "
